@@ -7,7 +7,7 @@
    strictly increasing in the handle: chronological, nothing twice. *)
 From Coq Require Import Sorting.Sorted ZArith.
 From Stam Require Import Base.Tac Model.Offset Model.Store Model.StoreObs Spec.StoreSpec
-     Proofs.StoreScan Proofs.StoreInv Proofs.StoreDataDef Proofs.StoreRemove Proofs.StoreData.
+     Proofs.StoreScan Proofs.StoreInv Proofs.StoreDataDef Proofs.StoreRemove Proofs.StoreData Proofs.StoreStable.
 
 (* every reverse index of every reachable store is exact *)
 Theorem C01_index_invariant : forall ops, Inv (run ops).
@@ -49,6 +49,14 @@ Proof. intros s P h. rewrite scan_scanl. apply scanl_In. Qed.
 (* an annotation only targets annotations older than itself, in every reachable store *)
 Theorem C01_targets_older : forall ops, wf_targets (run ops).
 Proof. intros ops. exact (proj1 (proj2 (reachable_Good ops))). Qed.
+
+(* asking an annotation for its targets returns what it was built with: over ANY continuation of
+   a history an annotation keeps its id, kind and target leaves; its data can only lose items
+   (non-strict removal of data) *)
+Theorem C01_targets_never_change : forall ops ops' h a',
+  h < length (anns (run ops)) -> get_ann (run (ops ++ ops')) h = Some a' ->
+  exists a, get_ann (run ops) h = Some a /\ same_ann a a'.
+Proof. exact targets_never_change. Qed.
 
 (* non-vacuity: a history with text, annotation-on-annotation with offset, a complex selector
    reaching one text selection twice, metadata on data, and two removals *)
